@@ -643,3 +643,292 @@ Lemma quantize_to_fit_exceeds_7_bits :
 Proof.
   exists 1, [([2 ^ 33], [0]); ([], [])]. eexists. eexists. split; [lia|]. split; [vm_compute; reflexivity|]. lia.
 Qed.
+
+(* ================= C04 ================= *)
+(* ---------------- list_set / bget / bset ---------------- *)
+Lemma list_set_length {A} (l : list A) i v : length (list_set l i v) = length l.
+Proof. revert i. induction l as [|a l IH]; intros [|i]; cbn; auto. Qed.
+
+Lemma nth_list_set_same {A} (l : list A) i v d : (i < length l)%nat -> nth i (list_set l i v) d = v.
+Proof. revert i. induction l as [|a l IH]; intros [|i] H; cbn in *; try lia; auto. apply IH. lia. Qed.
+
+Lemma nth_list_set_other {A} (l : list A) i j v d : i <> j -> nth j (list_set l i v) d = nth j l d.
+Proof. revert i j. induction l as [|a l IH]; intros [|i] [|j] H; cbn; auto; try congruence. Qed.
+
+Lemma list_set_twice {A} (l : list A) i v w : list_set (list_set l i v) i w = list_set l i w.
+Proof. revert i. induction l as [|a l IH]; intros [|i]; cbn; auto. f_equal. apply IH. Qed.
+
+Lemma list_set_nth {A} (l : list A) i d : (i < length l)%nat -> list_set l i (nth i l d) = l.
+Proof. revert i. induction l as [|a l IH]; intros [|i] H; cbn in *; try lia; auto. f_equal. apply IH. lia. Qed.
+
+Lemma list_set_out {A} (l : list A) i v : (length l <= i)%nat -> list_set l i v = l.
+Proof. revert i. induction l as [|a l IH]; intros [|i] H; cbn in *; try lia; auto. f_equal. apply IH. lia. Qed.
+
+Definition in_band (b : band) (y x : nat) : Prop := (y < length b)%nat /\ (x < length (nth y b []))%nat.
+
+Lemma in_band_dec b y x : {in_band b y x} + {~ in_band b y x}.
+Proof.
+  unfold in_band. destruct (lt_dec y (length b)); [|right; tauto].
+  destruct (lt_dec x (length (nth y b []))); [left; tauto|right; tauto].
+Qed.
+
+Lemma bset_out b y x v : ~ in_band b y x -> bset b y x v = b.
+Proof.
+  unfold in_band, bset. intros H. destruct (lt_dec y (length b)) as [Hy|Hy].
+  - rewrite (list_set_out (nth y b [])) by lia. apply list_set_nth. assumption.
+  - apply list_set_out. lia.
+Qed.
+
+Lemma bget_bset_same b y x v : in_band b y x -> bget (bset b y x v) y x = v.
+Proof.
+  unfold in_band, bget, bset. intros [Hy Hx]. rewrite nth_list_set_same by assumption.
+  apply nth_list_set_same. assumption.
+Qed.
+
+Lemma bget_bset_other b y x v y' x' : (y', x') <> (y, x) -> bget (bset b y x v) y' x' = bget b y' x'.
+Proof.
+  intros H. destruct (in_band_dec b y x) as [[Hy Hx]|Hout]; [|rewrite bset_out by assumption; reflexivity].
+  unfold bget, bset. destruct (Nat.eq_dec y y') as [->|Hne].
+  - rewrite nth_list_set_same by assumption. apply nth_list_set_other. congruence.
+  - rewrite nth_list_set_other by assumption. reflexivity.
+Qed.
+
+Lemma bset_twice b y x v w : bset (bset b y x v) y x w = bset b y x w.
+Proof.
+  destruct (in_band_dec b y x) as [[Hy Hx]|Hout]; [|rewrite !bset_out; auto; rewrite bset_out; auto].
+  unfold bset. rewrite nth_list_set_same by assumption. rewrite list_set_twice, list_set_twice. reflexivity.
+Qed.
+
+Lemma bset_bget b y x : bset b y x (bget b y x) = b.
+Proof.
+  destruct (in_band_dec b y x) as [[Hy Hx]|Hout]; [|apply bset_out; assumption].
+  unfold bset, bget. rewrite list_set_nth by assumption. apply list_set_nth. assumption.
+Qed.
+
+Lemma in_band_bset b y x v y' x' : in_band (bset b y x v) y' x' <-> in_band b y' x'.
+Proof.
+  destruct (in_band_dec b y x) as [[Hy Hx]|Hout]; [|rewrite bset_out by assumption; tauto].
+  unfold in_band, bset. rewrite list_set_length.
+  destruct (Nat.eq_dec y y') as [->|Hne].
+  - split; intros [H1 H2]; split; try assumption.
+    + rewrite nth_list_set_same, list_set_length in H2 by assumption. assumption.
+    + rewrite nth_list_set_same, list_set_length by assumption. assumption.
+  - rewrite nth_list_set_other by assumption. tauto.
+Qed.
+
+Lemma band_dims_bset b y x v : band_h (bset b y x v) = band_h b /\ band_w (bset b y x v) = band_w b.
+Proof.
+  unfold band_h, band_w, bset. rewrite list_set_length. split; [reflexivity|].
+  destruct b as [|r b]; [reflexivity|]. destruct y as [|y]; cbn; [apply list_set_length|reflexivity].
+Qed.
+
+(* ---------------- DC prediction round trip ---------------- *)
+Lemma dc_pred_bset b y x v : dc_pred (bset b y x v) y x = dc_pred b y x.
+Proof.
+  unfold dc_pred. destruct x as [|x1], y as [|y1]; try reflexivity;
+    rewrite ?bget_bset_other; try reflexivity; intros H; inversion H; lia.
+Qed.
+
+Definition enc_step (b : band) (yx : nat * nat) : band :=
+  bset b (fst yx) (snd yx) (bget b (fst yx) (snd yx) - dc_pred b (fst yx) (snd yx)).
+Definition dec_step (b : band) (yx : nat * nat) : band :=
+  bset b (fst yx) (snd yx) (bget b (fst yx) (snd yx) + dc_pred b (fst yx) (snd yx)).
+
+Lemma dec_enc_step b p : dec_step (enc_step b p) p = b.
+Proof.
+  destruct p as [y x]. unfold dec_step, enc_step. cbn [fst snd].
+  rewrite dc_pred_bset, bset_twice.
+  destruct (in_band_dec b y x) as [Hin|Hout]; [|apply bset_out; assumption].
+  rewrite bget_bset_same by assumption.
+  replace (bget b y x - dc_pred b y x + dc_pred b y x) with (bget b y x) by lia. apply bset_bget.
+Qed.
+
+Lemma enc_dec_step b p : enc_step (dec_step b p) p = b.
+Proof.
+  destruct p as [y x]. unfold dec_step, enc_step. cbn [fst snd].
+  rewrite dc_pred_bset, bset_twice.
+  destruct (in_band_dec b y x) as [Hin|Hout]; [|apply bset_out; assumption].
+  rewrite bget_bset_same by assumption.
+  replace (bget b y x + dc_pred b y x - dc_pred b y x) with (bget b y x) by lia. apply bset_bget.
+Qed.
+
+Lemma fold_inverse {S P} (enc dec : S -> P -> S) (l : list P) :
+  (forall s p, dec (enc s p) p = s) -> forall s, fold_left dec l (fold_left enc (rev l) s) = s.
+Proof.
+  intros H. induction l as [|p l IH] using rev_ind; intros s; [reflexivity|].
+  rewrite rev_app_distr. cbn [rev app fold_left]. rewrite fold_left_app. cbn [fold_left].
+  rewrite IH. apply H.
+Qed.
+
+Lemma fold_dims (f : band -> nat * nat -> Z) l b :
+  let r := fold_left (fun b yx => bset b (fst yx) (snd yx) (f b yx)) l b in
+  band_h r = band_h b /\ band_w r = band_w b.
+Proof.
+  revert b. induction l as [|p l IH]; intros b; [split; reflexivity|].
+  cbn [fold_left]. cbv zeta in *. destruct (IH (bset b (fst p) (snd p) (f b p))) as [H1 H2].
+  destruct (band_dims_bset b (fst p) (snd p) (f b p)) as [H3 H4]. split; congruence.
+Qed.
+
+(* the decoder's dc_prediction undoes the encoder's apply_dc_prediction on ANY band *)
+Theorem dc_roundtrip (b : band) : dc_prediction (apply_dc_prediction b) = b.
+Proof.
+  unfold dc_prediction.
+  assert (Hd : band_h (apply_dc_prediction b) = band_h b /\ band_w (apply_dc_prediction b) = band_w b).
+  { unfold apply_dc_prediction.
+    apply (fold_dims (fun b yx => bget b (fst yx) (snd yx) - dc_pred b (fst yx) (snd yx))). }
+  destruct Hd as [-> ->]. unfold apply_dc_prediction.
+  apply (fold_inverse enc_step dec_step). apply dec_enc_step.
+Qed.
+
+(* ---------------- index 0 is the identity ---------------- *)
+Lemma quantize_coeffs_0 cs qms :
+  length qms = length cs -> Forall (fun m => 0 <= m) qms -> quantize_coeffs 0 cs qms = cs.
+Proof.
+  revert qms. induction cs as [|c cs IH]; intros [|m qms] Hl Hq; try discriminate; [reflexivity|].
+  unfold quantize_coeffs in *. cbn [combine map fst snd]. inversion Hq; subst.
+  rewrite IH by (cbn in Hl; try lia; assumption). f_equal.
+  unfold py_max. replace (Z.max 0 (0 - m)) with 0 by lia. apply index0_lossless.
+Qed.
+
+Lemma inverse_quant_0_list cs : map (fun v => inverse_quant v 0) cs = cs.
+Proof. induction cs as [|c cs IH]; [reflexivity|]. cbn [map]. rewrite IH. f_equal. apply index0_lossless. Qed.
+
+(* ---------------- exp-Golomb bit model ---------------- *)
+Fixpoint npairs (p : positive) : nat :=
+  match p with xH => O | xO q => S (npairs q) | xI q => S (npairs q) end.
+
+Fixpoint pos_app (v : Z) (p : positive) : Z :=
+  match p with
+  | xH => v
+  | xO q => 2 * pos_app v q
+  | xI q => 2 * pos_app v q + 1
+  end.
+
+Lemma pos_app_1 p : pos_app 1 p = Zpos p.
+Proof. induction p; cbn [pos_app]; rewrite ?IHp; lia. Qed.
+
+Lemma eg_body_length p : length (eg_body p) = (2 * npairs p)%nat.
+Proof. induction p; cbn [eg_body npairs]; rewrite ?app_length, ?IHp; cbn [length]; lia. Qed.
+
+Lemma read_uint_fuel_body p : forall f v tail,
+  read_uint_fuel (npairs p + f) v (eg_body p ++ tail) = read_uint_fuel f (pos_app v p) tail.
+Proof.
+  induction p as [q IH|q IH|]; intros f v tail; cbn [eg_body npairs pos_app].
+  - rewrite <- app_assoc. replace (S (npairs q) + f)%nat with (npairs q + S f)%nat by lia.
+    rewrite IH. cbn [app read_uint_fuel read_bit]. reflexivity.
+  - rewrite <- app_assoc. replace (S (npairs q) + f)%nat with (npairs q + S f)%nat by lia.
+    rewrite IH. cbn [app read_uint_fuel read_bit]. rewrite Z.add_0_r. reflexivity.
+  - reflexivity.
+Qed.
+
+Lemma read_uint_write v rest : 0 <= v -> read_uint (write_uint v ++ rest) = (v, rest).
+Proof.
+  intros Hv. unfold read_uint, write_uint. destruct (v + 1) as [|p|p] eqn:E; try lia.
+  rewrite <- app_assoc. rewrite !app_length, eg_body_length. cbn [length app].
+  match goal with |- read_uint_fuel ?n _ _ = _ =>
+    replace n with (npairs p + S (S (npairs p + length rest)))%nat by lia end.
+  rewrite read_uint_fuel_body. cbn [read_uint_fuel read_bit]. rewrite pos_app_1. f_equal. lia.
+Qed.
+
+Lemma read_sint_write v rest : read_sint (write_sint v ++ rest) = (v, rest).
+Proof.
+  unfold read_sint, write_sint. rewrite <- app_assoc, read_uint_write by lia.
+  destruct (v =? 0) eqn:E0.
+  - assert (v = 0) by lia. subst. reflexivity.
+  - replace (Z.abs v =? 0) with false by lia. cbn [app read_bit].
+    destruct (v <? 0) eqn:En; f_equal; lia.
+Qed.
+
+Lemma read_coeffs_write cs rest n :
+  read_coeffs (length cs + n) (write_coeffs cs ++ rest) = cs ++ read_coeffs n rest.
+Proof.
+  induction cs as [|c cs IH]; [reflexivity|].
+  cbn [length plus read_coeffs write_coeffs flat_map]. rewrite <- app_assoc, read_sint_write.
+  cbn [app]. f_equal. apply IH.
+Qed.
+
+(* past the end of the block, and on 1-bits, coefficients read as zero *)
+Lemma read_coeffs_ones k j tail :
+  (j <= k)%nat -> (j < k -> tail = [])%nat -> read_coeffs k (repeat true j ++ tail) = repeat 0 k.
+Proof.
+  revert j. induction k as [|k IH]; intros j Hj Ht; [reflexivity|].
+  cbn [read_coeffs repeat]. destruct j as [|j].
+  - assert (Hnil : tail = []) by (apply Ht; lia). subst tail.
+    cbn. f_equal. apply (IH O); [lia|reflexivity].
+  - cbn [repeat app]. unfold read_sint, read_uint. cbn [length read_uint_fuel read_bit].
+    cbn [Z.eqb Z.sub Z.add Z.opp Z.pos_sub]. f_equal. apply IH; [lia|]. intros; apply Ht; lia.
+Qed.
+
+Lemma size_log2 q : Zpos (Pos.size q) = Z.log2 (Zpos q) + 1.
+Proof. destruct q; cbn; lia. Qed.
+
+Lemma npairs_log2 p : Z.of_nat (npairs p) = Z.log2 (Zpos p).
+Proof.
+  induction p as [q IH|q IH|]; cbn [npairs]; try reflexivity.
+  - rewrite Nat2Z.inj_succ, IH. change (Z.log2 (Z.pos q~1)) with (Z.pos (Pos.size q)). rewrite size_log2. lia.
+  - rewrite Nat2Z.inj_succ, IH. change (Z.log2 (Z.pos q~0)) with (Z.pos (Pos.size q)). rewrite size_log2. lia.
+Qed.
+
+(* the bit model writes exactly signed_exp_golomb_length (Gen/ExpGolombLen.v) bits *)
+Lemma write_sint_length v : Z.of_nat (length (write_sint v)) = signed_exp_golomb_length v.
+Proof.
+  unfold write_sint, write_uint, signed_exp_golomb_length, exp_golomb_length, py_abs.
+  replace (Z.abs v <? 0) with false by lia.
+  destruct (Z.abs v + 1) as [|p|p] eqn:E; try lia.
+  rewrite !app_length, eg_body_length. cbn [bit_length length].
+  pose proof (npairs_log2 p) as Hn.
+  destruct (v =? 0) eqn:E0; cbn [negb length]; lia.
+Qed.
+
+Lemma write_coeffs_length cs : Z.of_nat (length (write_coeffs cs)) = sum_sgl cs.
+Proof.
+  induction cs as [|c cs IH]; [reflexivity|].
+  cbn [write_coeffs flat_map]. rewrite app_length, Nat2Z.inj_add, write_sint_length. fold (write_coeffs cs).
+  rewrite IH. reflexivity.
+Qed.
+
+Lemma write_coeffs_app a b : write_coeffs (a ++ b) = write_coeffs a ++ write_coeffs b.
+Proof. unfold write_coeffs. apply flat_map_app. Qed.
+
+Lemma write_coeffs_zeros k : write_coeffs (repeat 0 k) = repeat true k.
+Proof. induction k as [|k IH]; [reflexivity|]. cbn [repeat write_coeffs flat_map]. fold (write_coeffs (repeat 0 k)). rewrite IH. reflexivity. Qed.
+
+Lemma split_trailing_zeros cs :
+  exists core k, cs = core ++ repeat 0 k /\ calculate_coeffs_bits cs = sum_sgl core.
+Proof.
+  induction cs as [|c cs IH] using rev_ind.
+  - exists [], O. split; reflexivity.
+  - destruct (Z.eq_dec c 0) as [->|Hc].
+    + destruct IH as (core & k & -> & Hb). exists core, (S k). split.
+      * rewrite <- app_assoc. f_equal. clear. induction k; [reflexivity|]. cbn [repeat app]. rewrite IHk. reflexivity.
+      * rewrite ccb_snoc_zero. exact Hb.
+    + exists (cs ++ [c]), O. split; [rewrite app_nil_r; reflexivity|apply ccb_snoc_nonzero; assumption].
+Qed.
+
+Lemma firstn_repeat_le {A} (x : A) n k : (n <= k)%nat -> firstn n (repeat x k) = repeat x n.
+Proof. revert k. induction n as [|n IH]; intros [|k] H; cbn; try lia; auto. f_equal. apply IH. lia. Qed.
+
+(* A block of len bits, len >= calculate_coeffs_bits cs, filled by the serialiser from cs and
+   read back as (length cs) coefficients gives cs again: the encoder may size blocks by
+   calculate_coeffs_bits, ignoring trailing zeros. *)
+Theorem coeff_bits_trailing_zeros cs (len : nat) :
+  calculate_coeffs_bits cs <= Z.of_nat len ->
+  read_coeffs (length cs) (block_bits len cs) = cs.
+Proof.
+  intros Hlen. destruct (split_trailing_zeros cs) as (core & k & -> & Hb).
+  rewrite Hb in Hlen. rewrite <- write_coeffs_length in Hlen.
+  unfold block_bits. rewrite write_coeffs_app, write_coeffs_zeros.
+  set (W := write_coeffs core) in *. rewrite app_length, repeat_length.
+  assert (Hw : (length W <= len)%nat) by lia.
+  rewrite <- app_assoc. rewrite firstn_app. rewrite (firstn_all2 W) by lia.
+  rewrite app_length. rewrite read_coeffs_write. f_equal.
+  destruct (le_lt_dec (len - length W) k) as [Hle|Hgt].
+  - (* the block ends within the run of 1 bits *)
+    rewrite firstn_app, repeat_length.
+    replace (len - length W - k)%nat with O by lia. rewrite firstn_O, app_nil_r.
+    rewrite firstn_repeat_le by assumption.
+    rewrite <- (app_nil_r (repeat true (len - length W))).
+    apply read_coeffs_ones; [assumption|reflexivity].
+  - rewrite firstn_all2 by (rewrite app_length, !repeat_length; lia).
+    apply read_coeffs_ones; [lia|intros; lia].
+Qed.
